@@ -133,6 +133,8 @@ def gen_payload(ch, maxlen=12, long_ok=False):
     for _ in range(n):
         if ch.chance(3, 8, "special"):
             out.append(ch.pick(SPECIAL, "sch"))
+        elif ch.chance(1, 4, "anyascii"):
+            out.append(chr(ch.draw(128, "ascii")))
         else:
             out.append(ch.pick(PLAIN, "pch"))
     return "".join(out)
@@ -178,6 +180,7 @@ def gen_config(ch):
         # stale reply is outside the statement.
         cfg["enabled"] = [k for k in cfg["enabled"] if k in BENIGN_FOR_DRIVER]
         cfg["peer_packets"] = []  # well behaved stub: only replies
+        cfg["slow_replies"] = bool(ch.chance(1, 3, "slowreplies"))
         cfg["callers"] = []
         nb = 1 + ch.weighted([3, 2], "b_ncallers")
         cfg["bops"] = []
@@ -204,7 +207,8 @@ def gen_config(ch):
                 elif k in ("set_breakpoint", "clear_breakpoint"):
                     ops.append((k, addr))
                 elif k == "step":
-                    ops.append((k, ch.pick(["S05", "S02", "T0500:44332211;",
+                    ops.append((k, ch.pick(["S05", "S02", "S0b", "T0a00:ddccbbaa;",
+                                            "T0500:44332211;",
                                             "T05thread:01;"], "b_stop")))
                 else:
                     ops.append((k,))
@@ -378,7 +382,8 @@ class RefPeer:
             delay = ch.draw(w.cfg["ack_delay_us"] + 1, "ackdelay") \
                 if w.cfg["ack_delay_us"] else 0
             if f.hit("slow_ack", 1, 6):
-                delay += 100_000 + ch.draw(200_000, "slowack")
+                # round trip stays below the 0.5 s ack timeout
+                delay += 100_000 + ch.draw(290_000, "slowack")
             # "resp" is what actually goes on the wire towards the client:
             # it stays "lost" until the ack byte is really emitted (the peer
             # may close the connection first)
@@ -580,6 +585,22 @@ class World:
         reply only after 's' / 'c'."""
         cmd = payload.decode("latin-1")
         peer = self.peer
+        if self.cfg.get("slow_replies") and cmd not in ("s", "c") and \
+                not getattr(self, "_deferred", False) and \
+                self.ch.chance(1, 3, "slowreply"):
+            # a slow target: the reply comes late, but well within the
+            # driver's 3 s reply timeout
+            delay = 200_000 + self.ch.draw(2_000_000, "replydelay")
+
+            def later(payload=payload):
+                self._deferred = True
+                try:
+                    self.stub_reply(payload)
+                finally:
+                    self._deferred = False
+
+            self.sim.after(delay, later, "stub.slowreply")
+            return
         if cmd.startswith("m"):
             a, n = cmd[1:].strip().split(",")
             a, n = int(a, 16), int(n, 16)
